@@ -467,6 +467,11 @@ impl MorselAggregateExec {
                 let Some(stats) = col.statistics() else {
                     return Ok(None);
                 };
+                // The accumulator array has no slot for the NULL group: take
+                // the generic path unless the footers prove there is none.
+                if stats.null_count_opt() != Some(0) {
+                    return Ok(None);
+                }
                 use parquet::file::statistics::Statistics;
                 let (lo, hi) = match stats {
                     Statistics::Int64(s) => match (s.min_opt(), s.max_opt()) {
